@@ -7,7 +7,9 @@
        {"op":"tick","n":n}, {"op":"setbtime","b":b} | calls {"op":"new","pid":p},
        {"op":"is_running"|"ppid"|"create_time"|"hash","i":i}, {"op":"signal","i":i,"m":"send"|"suspend"|…,"sig":n},
        {"op":"setter","i":i,"k":"nice"|"ionice"|"rlimit"|"affinity","args":[…]}, {"op":"eq","i":i,"j":j},
-       {"op":"boot_time"}, {"op":"process_iter"} | {"op":"pairs"} (all pairwise ==, all hash keys)
+       {"op":"boot_time"}, {"op":"process_iter"} (→ [[pid, object index], …] in yield order; new objects are
+       appended to the object list), {"op":"enter"|"leave","i":i} (oneshot block), {"op":"status","i":i} (str(p))
+       | {"op":"pairs"} (all pairwise ==, all hash keys)
   out: {"model":{"out":…,"eff":[…]},"spec":{…}}
 -/
 import PsutilModel.Base.Proto
@@ -49,6 +51,9 @@ def parseEv (j : Json) : R Ev := do
   else if op == "eq" then return .c (.eq (← natF j "i") (← natF j "j"))
   else if op == "hash" then return .c (.hash (← natF j "i"))
   else if op == "process_iter" then return .c .processIter
+  else if op == "enter" then return .c (.oneshot (← natF j "i") true)
+  else if op == "leave" then return .c (.oneshot (← natF j "i") false)
+  else if op == "status" then return .c (.status (← natF j "i"))
   else .error s!"unknown op {op}"
 
 def jExc : Exc → Json
@@ -56,13 +61,20 @@ def jExc : Exc → Json
   | .valueError => jObj [("kind", "exc"), ("exc", "ValueError")]
   | .badCall => jObj [("kind", "exc"), ("exc", "badCall")]
 
+def statusName : StatusWord → String
+  | .reusedTerminated => "terminated + PID reused"
+  | .terminated => "terminated"
+  | .zombie => "zombie"
+  | .alive => "alive"
+
 def jOut : Out → Json
   | .unit => jObj [("kind", "unit")]
   | .bool b => jObj [("kind", "bool"), ("v", Json.bool b)]
   | .nat n => jObj [("kind", "nat"), ("v", jNat n)]
   | .obj i => jObj [("kind", "obj"), ("i", jNat i)]
   | .ident p c => jObj [("kind", "ident"), ("pid", jNat p), ("ct", jNat c)]
-  | .pids l => jObj [("kind", "pids"), ("v", jList jNat l)]
+  | .procs l => jObj [("kind", "procs"), ("v", jList (fun e => Json.arr #[jNat e.1, jNat e.2]) l)]
+  | .status w => jObj [("kind", "status"), ("v", Json.str (statusName w))]
   | .exc e => jExc e
 
 def kindName : EffKind → String
@@ -93,6 +105,11 @@ def specOf (s : St) : Ev → Json
       match s.ps.objs[i]? with
       | some o => jObj [("bool", Json.bool (Spec.listedB s.kern o))]
       | none => jObj []
+    | .status i =>
+      match s.ps.objs[i]? with
+      | some o => jObj [("listed", Json.bool (Spec.listedB s.kern o)), ("own_zombie", jOpt Json.bool (Spec.ownZombie s.kern o))]
+      | none => jObj []
+    | .processIter => jObj [("listed_pids", jList jNat (s.kern.procs.map (·.pid)))]
     | call =>
       match call.target with
       | none => jObj []
